@@ -61,6 +61,9 @@ def generate(rng, tier):
             if kind == "reg":
                 lines.append("FILE %s reg %s" % (hx(d + "/x.conf"), hx("i = %d\n" % (k + 1))))
                 lines.append("FILE %s reg %s" % (hx(d + "/sub/y.conf"), hx("inc = %d\n" % (k + 1))))
+                # relative names that look like something else on other systems: a drive letter, a backslash, a dot
+                for odd in ("x:main.conf", "\\bs.conf", "C:x.conf", ".hidden", "a:b/c.conf"):
+                    lines.append("FILE %s reg %s" % (hx(d + "/" + odd), hx("i = %d\n" % (10 + k))))
             elif kind == "dir":
                 lines.append("FILE %s dir ." % hx(d + "/x.conf"))
         lines.append("FILE %s reg %s" % (hx("main.conf"), hx("include(\"x.conf\")\ninclude(\"sub/y.conf\")\n")))
@@ -73,12 +76,13 @@ def generate(rng, tier):
                 form = forms.setdefault(d, form)
             dd = d if form < 0.6 else (cdir + "/" + d if form < 0.85 else rng.choice(["~/" + d, "~nouser/" + d, "~" + (USERS[0] if USERS else "root") + "/" + d]))
             lines.append("SP 0 " + hx(dd))
-        names = ["x.conf", "sub/y.conf", cdir + "/d2/x.conf", cdir + "/d1", cdir + "/dmiss/x.conf", "missing.conf", "", "./d1/x.conf"]
+        names = ["x.conf", "sub/y.conf", cdir + "/d2/x.conf", cdir + "/d1", cdir + "/dmiss/x.conf", "missing.conf", "", "./d1/x.conf",
+                 "x:main.conf", "\\bs.conf", "C:x.conf", ".hidden", "a:b/c.conf", "\\", "z:"]
         for nm in names:
             lines.append("SQ 0 " + hx(nm))
         for t in ["~", "~/x", "~/", "~root", "~root/x/y", "~roo/x", "~r", "~ro", "~rootx/y", "~root/z", "~nouser/x", "~nouser", "plain", "", "a~b", "~~"] + ["~%s/f" % u for u in USERS]:
             lines.append("TE " + hx(t))
-        lines += ["PF 0 " + hx("x.conf"), "D 0", "PF 0 " + hx(cdir + "/main.conf" if seq else "main.conf"), "D 0",
+        lines += ["PF 0 " + hx("x:main.conf"), "D 0", "PB 0 " + hx("include(\"\\\\bs.conf\")\n"), "D 0", "PF 0 " + hx("x.conf"), "D 0", "PF 0 " + hx(cdir + "/main.conf" if seq else "main.conf"), "D 0",
                   "PB 0 " + hx("include(\"x.conf\")\n"), "D 0",
                   "PB 0 " + hx("box { include(\"x.conf\") }\n"), "D 0",
                   "PB 0 " + hx("box { inner { include(\"sub/y.conf\") include(\"x.conf\") } }\n"), "D 0",
